@@ -507,6 +507,19 @@ pub fn run_one(p: &Program, tmpl: &(Image, BTreeMap<String, Vec<u8>>), prefix: &
                         findings.push((vec!["C12"], format!("quiescent-{}", x.oracle), x.detail));
                     }
                 }
+                // C20 at quiescence: snapshot + log, decoded independently, equal the acknowledged history
+                match ondisk::decode_disk(&crate::seq::load_top(&dir), p.cfg.n) {
+                    Err(e) => findings.push((vec!["C20"], "quiescent-disk-malformed".into(), e)),
+                    Ok(disk) => match disk.replay() {
+                        Err(e) => findings.push((vec!["C20"], "quiescent-log-gap".into(), e)),
+                        Ok(got) => {
+                            let want: BTreeMap<Vec<u8>, ([u8; 32], u64)> = final_map.iter().map(|(k, v)| (k.as_bytes().to_vec(), (b3(v), v.len() as u64))).collect();
+                            if got != want {
+                                findings.push((vec!["C20"], "quiescent-disk-vs-history".into(), format!("snapshot (version {}) + log decode to keys {:?}, the acknowledged history ends in {:?}", disk.snapshot_version(), got.keys().map(|k| util::show(k)).collect::<Vec<_>>(), final_map.keys().collect::<Vec<_>>())));
+                            }
+                        }
+                    },
+                }
                 // restart and compare (once per distinct final directory + contents of this program)
                 drop(stats);
                 drop(cas);
@@ -759,6 +772,8 @@ fn relevant(p: &Program, prop: &str) -> bool {
     let writers = ops.iter().filter(|o| matches!(o, TOp::Put { .. } | TOp::Remove { .. } | TOp::RemoveRangeAll)).count();
     match prop {
         "C13" => ops.iter().any(|o| matches!(o, TOp::Abort { .. })) || p.vis == 1,
+        // snapshots taken concurrently with writers: explicit checkpoints and rollover checkpoints (N=1)
+        "C20" => writers >= 1 && (ops.iter().any(|o| matches!(o, TOp::Checkpoint)) || p.cfg.n == 1),
         "C08" => ops.iter().any(|o| o.is_cleanup()),
         "C07" => ops.iter().all(|o| !o.is_read()) && writers >= 1 && (p.init == Init::AB || p.cfg.n == 1 || p.threads.len() > 2),
         "C06" => writers >= 1 && ops.iter().all(|o| matches!(o, TOp::Put { .. } | TOp::Remove { .. } | TOp::RemoveRangeAll | TOp::GetReader { .. } | TOp::Abort { .. })) && p.init != Init::Empty,
@@ -787,7 +802,7 @@ pub fn run(tier: &str, slice: (u64, u64), seed: u64, prop: &str) -> WorkerResult
         }
     }
     if slice.0 == 0 {
-        res.completed.push(format!("{total} programs{}: all unordered pairs of single operations from a 17-op menu on 4 initial stores (N=10000) and on a=X with N=1 (rollover checkpoint inside every write): every interleaving, no preemption bound; three-thread programs with <= {} preemptions; two-ops-per-thread programs", if tier == "quick" && matches!(prop, "C13" | "C08" | "C07" | "C06") { format!(" (the subset of the following relevant to {prop})") } else { String::new() }, if tier == "quick" { 2 } else { 3 }));
+        res.completed.push(format!("{total} programs{}: all unordered pairs of single operations from a 17-op menu on 4 initial stores (N=10000) and on a=X with N=1 (rollover checkpoint inside every write): every interleaving, no preemption bound; three-thread programs with <= {} preemptions; two-ops-per-thread programs", if tier == "quick" && matches!(prop, "C13" | "C08" | "C07" | "C06" | "C20") { format!(" (the subset of the following relevant to {prop})") } else { String::new() }, if tier == "quick" { 2 } else { 3 }));
     }
     res
 }
